@@ -655,6 +655,8 @@ fn exec_call_inner(ctx: &mut Ctx, idx: usize, c: &Value, keep: &mut Option<Owned
                 v
             }
         }
+        (_, "errtab_concurrent") => crate::errtab::concurrent(c),
+        (_, "errtab_birthday") => crate::errtab::birthday(c),
         _ => json!({"ok": false, "skip": format!("unknown op {api}/{op}")}),
     }
 }
